@@ -2,4 +2,4 @@ From Chum Require Import Machine Sem Inputs Text Nested.
 Require Extraction.
 Require ExtrOcamlBasic.
 Extraction Language OCaml.
-Extraction "Model.ml" run_top go init_st sem_top sem no_quirks spn_plain spn_mapped text_digits text_int text_ident text_keyword text_whitespace text_inline_whitespace text_newline text_padded nest_q set_nested.
+Extraction "Model.ml" run_top go init_st sem_top sem no_quirks spn_plain spn_mapped text_digits text_int text_ident text_keyword text_whitespace text_inline_whitespace text_newline text_padded nested_delims nest_q set_nested.
